@@ -124,18 +124,20 @@ def getBool (bs : Bytes) : Option (Bool × Bytes) :=
 
 /-- `putArrayLength(n)` = `putInt32(int32(n))` (the prep encoder rejects n > MaxInt32) -/
 def putArrayLength (n : Int) : Bytes := putInt 4 n
-/-- `getArrayLength`: the count must not exceed the remaining bytes nor 2·MaxUint16 -/
+/-- `getArrayLength`: the count must not exceed the remaining bytes nor 2·MaxUint16, and −1 (null) is the only
+    negative value accepted -/
 def getArrayLength (bs : Bytes) : Option (Int × Bytes) :=
   match getInt 4 bs with
   | none => none
-  | some (n, rest) => if n > rest.length then none else if n > 131070 then none else some (n, rest)
+  | some (n, rest) => if n > rest.length then none else if n > 131070 ∨ n < -1 then none else some (n, rest)
 
-/-- `putCompactArrayLength(n)` = uvarint(n+1); `getCompactArrayLength`: 0 (null) and 1 (empty) both give 0 -/
+/-- `putCompactArrayLength(n)` = uvarint(n+1); `getCompactArrayLength`: 0 (null) and 1 (empty) both give 0; the
+    count must not exceed the remaining bytes -/
 def putCompactArrayLength (n : Nat) : Bytes := putUVarint (n + 1)
 def getCompactArrayLength (bs : Bytes) : Option (Nat × Bytes) :=
   match getUVarint bs with
   | none => none
-  | some (n, rest) => some (n - 1, rest)
+  | some (n, rest) => if n - 1 > rest.length then none else some (n - 1, rest)
 
 /-- `putEmptyTaggedFieldArray` / `getEmptyTaggedFieldArray` (only the empty section is supported) -/
 def putEmptyTagged : Bytes := putUVarint 0
@@ -293,13 +295,13 @@ def getStrings : Nat → Bytes → Option (List Bytes × Bytes)
       | none => none
       | some (ss, rest') => some (s :: ss, rest')
 
-/-- `putStringArray` / `getStringArray` (unsigned count, no upper bound check) -/
+/-- `putStringArray` / `getStringArray` (unsigned count, which must not exceed the remaining bytes) -/
 def putStringArray (ss : List Bytes) : Bytes := putArrayLength ss.length ++ putStrings ss
 def prepStringArray (ss : List Bytes) : Nat := 4 + (ss.map prepString).sum
 def getStringArray (bs : Bytes) : Option (List Bytes × Bytes) :=
   match getUInt 4 bs with
   | none => none
-  | some (k, rest) => getStrings k rest
+  | some (k, rest) => if k > rest.length then none else getStrings k rest
 
 /-! ## push/pop fields (length_field.go, crc32_field.go) as wrappers around an already encoded body -/
 
